@@ -55,3 +55,47 @@ Theorem C15_handshake_timer : forall evs,
     ({| TlsPump.ph := TlsPump.Dead; TlsPump.hs_timer := false; TlsPump.inner := TlsPump.inner s |}, [TlsPump.TClose]).
 Proof. exact Tls_proofs.handshake_timer. Qed.
 Print Assumptions C15_handshake_timer.
+
+(* ---- the same theorems about the code: `gen_run` / `gen_final` / `gen_step` / `cl_data_received` are the connection's
+   transition function assembled from the translation of /repo/src/nauyaca/server/protocol.py (coq/Gen/ServerGen.v,
+   regenerated from the working tree on every run; event dispatch in coq/Equiv/ServerLoop.v).  `reenc_ok` is the one
+   assumed fact about CPython's lenient UTF-8 decoder (satisfiable: EquivServerLoop.reenc_ok_satisfiable). ---- *)
+From NV Require Import Prelude.Utf8 Equiv.ServerGlue Gen.ServerGen Equiv.ServerLoop.
+From NV Require Equiv.EquivServerLoop Proofs.Server_on_code.
+Theorem C15_not_armed_while_answering_on_code : forall reenc : str -> str,
+  EquivServerLoop.reenc_ok reenc ->
+  forall ip6 handler mw up ip fp evs,
+  let s := gen_final reenc ip6 handler mw up ip fp init evs in
+  pending s <> [] -> timer s <> TArmed.
+Proof. exact Server_on_code.not_armed_while_answering_on_code. Qed.
+Print Assumptions C15_not_armed_while_answering_on_code.
+
+Theorem C15_timeout_response_on_code : forall reenc : str -> str,
+  EquivServerLoop.reenc_ok reenc ->
+  forall ip6 handler mw up ip fp evs,
+  let s := gen_final reenc ip6 handler mw up ip fp init evs in
+  timer s = TArmed -> sent s = false ->
+  snd (gen_step reenc ip6 handler mw up ip fp s ETimer) = [AWrite timeout_line; AClose].
+Proof. exact Server_on_code.timeout_response_on_code. Qed.
+Print Assumptions C15_timeout_response_on_code.
+
+Theorem C15_no_stuck_on_code_partial : forall reenc : str -> str,
+  EquivServerLoop.reenc_ok reenc ->
+  forall ip6 handler mw up ip fp evs,
+  has_lost evs = false ->
+  existsb (fun a => match a with AOutOfModel => true | _ => false end)
+          (flat (gen_run reenc ip6 handler mw up ip fp init evs)) = false ->
+  let s := gen_final reenc ip6 handler mw up ip fp init evs in
+  closing s = true \/ timer s = TArmed \/ pending s <> [].
+Proof. exact Server_on_code.no_stuck_partial_on_code. Qed.
+Print Assumptions C15_no_stuck_on_code_partial.
+
+Theorem C15_ok_on_code_partial : forall reenc : str -> str,
+  EquivServerLoop.reenc_ok reenc ->
+  forall ip6 handler mw up ip fp evs,
+  existsb (fun a => match a with AOutOfModel => true | _ => false end)
+          (flat (gen_run reenc ip6 handler mw up ip fp init evs)) = false ->
+  Spec.C15.ok evs (gen_run reenc ip6 handler mw up ip fp init evs) = true.
+Proof. exact Server_on_code.c15_ok_partial_on_code. Qed.
+Print Assumptions C15_ok_on_code_partial.
+
